@@ -1,0 +1,152 @@
+//go:build verif
+
+package dastard
+
+// Verification hook for the Abaco ingest path (property C03).  Compiled only with `-tags verif`.
+// It adds no behaviour of its own: a scripted in-memory PacketProducer feeds the REAL Sample(),
+// PrepareChannels(), readerMainLoop() (optionally through StartRun()), getNextBlock() and
+// distributeData(); the driver only decides which packets each ReadAllPackets call returns.
+
+import (
+	"fmt"
+	"time"
+
+	"github.com/usnistgov/dastard/packets"
+)
+
+// verifC03Producer is a PacketProducer whose reads are scripted: call k of ReadAllPackets returns
+// batches[k].  The lead producer (first in AbacoSource.producers, hence first to be read in every
+// tick of the reader loop) notes how many buffers the loop had emitted before each tick and parks
+// the loop once the script is exhausted, so no unscripted tick runs.
+type verifC03Producer struct {
+	as      *AbacoSource
+	lead    bool
+	sample  []*packets.Packet
+	batches [][]*packets.Packet
+	next    int
+	seen    []int
+	done    chan struct{}
+	release chan struct{}
+}
+
+func (p *verifC03Producer) ReadAllPackets() ([]*packets.Packet, error) {
+	if p.lead {
+		p.seen = append(p.seen, len(p.as.buffersChan))
+		if p.next == len(p.batches) {
+			close(p.done)
+		}
+		if p.next >= len(p.batches) {
+			<-p.release
+		}
+	}
+	if p.next >= len(p.batches) {
+		p.next++
+		return nil, nil
+	}
+	b := p.batches[p.next]
+	p.next++
+	return b, nil
+}
+
+func (p *verifC03Producer) samplePackets(d time.Duration) ([]*packets.Packet, error) {
+	return p.sample, nil
+}
+func (p *verifC03Producer) start() error        { return nil }
+func (p *verifC03Producer) discardStale() error { return nil }
+func (p *verifC03Producer) stop() error         { return nil }
+
+// VerifC03Block is one block as delivered by getNextBlock (one segment per channel).
+type VerifC03Block struct {
+	Tick       int         // index of the reader-loop tick that emitted the underlying buffer
+	Data       [][]RawType // per channel (index = channel index of the source)
+	FirstFrame []int64     // per segment
+	Dropped    []int       // per segment
+	NSamp      int
+}
+
+// VerifC03Run starts an AbacoSource on scripted producers and runs one reader-loop tick per batch.
+// sample[i] is what producer i yields in the Sample phase, ticks[i][k] what it yields in tick k
+// (all producers must have the same number of ticks).  With viaStartRun the loop is launched by the
+// real StartRun (50 ms ticks), otherwise by the same two statements with the given tick period.
+func VerifC03Run(sample [][]*packets.Packet, ticks [][][]*packets.Packet, period time.Duration,
+	viaStartRun bool, firstFrame int64) ([]VerifC03Block, error) {
+	as, err := NewAbacoSource()
+	if err != nil {
+		return nil, err
+	}
+	release := make(chan struct{})
+	var lead *verifC03Producer
+	as.producers = as.producers[:0]
+	for i := range sample {
+		pp := &verifC03Producer{as: as, lead: i == 0, sample: sample[i], batches: ticks[i],
+			done: make(chan struct{}), release: release}
+		if i == 0 {
+			lead = pp
+		}
+		as.producers = append(as.producers, pp)
+	}
+	if lead == nil {
+		return nil, fmt.Errorf("no producers")
+	}
+	if err = as.Sample(); err != nil {
+		return nil, err
+	}
+	if err = as.PrepareChannels(); err != nil {
+		return nil, err
+	}
+	// the two channels PrepareRun creates for the acquisition loops
+	as.abortSelf = make(chan struct{})
+	as.nextBlock = make(chan *dataBlock)
+	as.nextFrameNum = FrameIndex(firstFrame)
+	if viaStartRun {
+		if err = as.StartRun(); err != nil {
+			return nil, err
+		}
+	} else {
+		as.buffersChan = make(chan AbacoBuffersType, 100)
+		as.readPeriod = period
+		go as.readerMainLoop()
+	}
+	select {
+	case <-lead.done:
+	case <-time.After(15 * time.Second):
+		return nil, fmt.Errorf("reader loop did not consume the script")
+	}
+	// The loop is parked inside ReadAllPackets: seen[k] buffers existed before tick k.
+	seen := lead.seen
+	nbuf := seen[len(seen)-1]
+	blocks := make([]VerifC03Block, 0, nbuf)
+	tick := 0
+	for i := 0; i < nbuf; i++ {
+		for tick+1 < len(seen) && seen[tick+1] <= i {
+			tick++
+		}
+		blk, ok := <-as.getNextBlock()
+		if !ok || blk == nil {
+			return blocks, fmt.Errorf("block channel closed early")
+		}
+		if blk.err != nil {
+			return blocks, blk.err
+		}
+		vb := VerifC03Block{Tick: tick, NSamp: blk.nSamp}
+		for _, seg := range blk.segments {
+			vb.Data = append(vb.Data, seg.rawData)
+			vb.FirstFrame = append(vb.FirstFrame, int64(seg.firstFrameIndex))
+			vb.Dropped = append(vb.Dropped, seg.droppedFrames)
+		}
+		blocks = append(blocks, vb)
+	}
+	close(as.abortSelf)
+	close(release)
+	deadline := time.After(10 * time.Second)
+	for {
+		select {
+		case _, ok := <-as.buffersChan:
+			if !ok {
+				return blocks, nil
+			}
+		case <-deadline:
+			return blocks, fmt.Errorf("reader loop did not stop")
+		}
+	}
+}
